@@ -15,6 +15,7 @@ import Driver.Tags
 import Driver.Conf
 import Driver.Cli
 import Driver.Mml
+import Driver.Diag
 open Driver
 
 def allHandlers : List Handler :=
@@ -30,6 +31,7 @@ def allHandlers : List Handler :=
   ++ ConfD.handlers
   ++ CliD.handlers
   ++ MmlD.handlers
+  ++ DiagD.handlers
 
 def answerModel (cmd arg : String) : String :=
   match allHandlers.find? (·.cmd == cmd) with
